@@ -623,7 +623,7 @@ class NP:
             if _has_sym(m): raise Unsupported("linalg.det symbolic")
             return _np.linalg.det(m)
     linalg = _Linalg()
-    fft = _np.fft
+    fft = __import__("vfw.models.voxels", fromlist=["FFT"]).FFT
 
     class _Random:
         def __getattr__(self, k):
